@@ -45,3 +45,20 @@ Proof.
   exists good, tail. repeat split; auto. destruct H4 as [->|[err ->]]; cbn; lia.
 Qed.
 Print Assumptions C15_total_wire.
+
+(* the number of reported elements is linear in the buffer: every reported packet occupies at
+   least 16 bytes of it (IPFIX 16, V9 20, V5/V7 24), so a buffer of n bytes yields at most
+   n/16 packets plus at most one Error element *)
+Theorem C15_elements_linear : forall puf allow s x r,
+  parse_bytes puf allow s x = Some r -> (16 * (length r - 1) <= length x)%nat.
+Proof.
+  intros puf allow s x r H. destruct (run_accounted puf allow _ s x r H) as [good [tail [H1 [H2 [H3 [H4 _]]]]]].
+  assert (Hw : (16 * length good <= total_wire good)%nat).
+  { clear - H2. induction H2 as [|e good He _ IH]; [cbn; lia|].
+    cbn [length total_wire fold_right]. fold (total_wire good).
+    assert (16 <= wire_len e)%nat; [|lia].
+    destruct e; cbn [wire_len is_error] in *; try discriminate; unfold v9_wire, ix_wire; lia. }
+  assert (Hl : length r = (length good + length tail)%nat) by (rewrite <- (map_length fst r), H1, app_length; reflexivity).
+  destruct H4 as [->|[err ->]]; cbn [length] in Hl; lia.
+Qed.
+Print Assumptions C15_elements_linear.
